@@ -522,7 +522,7 @@ var (
 
 func family1Case(p f1Prog, ctx string, mode string) *txCase {
 	code := family1Code(p)
-	k := &txCase{Family: "opcode", Mode: mode, Input: calldataPattern}
+	k := &txCase{Family: "opcode", Mode: mode, Input: calldataPattern, Gas: ampleGasFlat}
 	k.Pre = []account{
 		{Addr: addrOrigin, Balance: 1000000, Nonce: 5},
 		{Addr: addrA, Balance: 1000, Nonce: 1, Code: code, Storage: storageSet},
@@ -612,7 +612,7 @@ func family2Name(toks []int) string {
 // family2Case: variant = calldata index*2 + prestate index
 func family2Case(toks []int, code []byte, variant int, mode string) *txCase {
 	cd, ps := variant/2, variant%2
-	k := &txCase{Family: "program", Mode: mode, Input: family2Calldata[cd], To: addrA, WorkLimit: workLimitShort}
+	k := &txCase{Family: "program", Mode: mode, Input: family2Calldata[cd], To: addrA, WorkLimit: workLimitShort, Gas: ampleGasFlat}
 	a := account{Addr: addrA, Balance: 1000, Nonce: 1, Code: code}
 	if ps == 1 {
 		a.Storage = storageSet
